@@ -1,6 +1,7 @@
 mod codec_drv;
 mod grid_drv;
 mod level_drv;
+mod misc_drv;
 mod model;
 mod mres_drv;
 mod queue_drv;
@@ -60,6 +61,17 @@ fn main() {
             let mut lines = vec![];
             for sc in &scs {
                 lines.extend(codec_drv::run(sc));
+            }
+            write_lines(&args[3], &lines);
+            if args.len() > 4 {
+                std::fs::write(&args[4], "[]").unwrap();
+            }
+        }
+        "misc" => {
+            let scs = read_ndjson(&args[2]);
+            let mut lines = vec![];
+            for sc in &scs {
+                lines.extend(misc_drv::run(sc));
             }
             write_lines(&args[3], &lines);
             if args.len() > 4 {
